@@ -680,6 +680,9 @@ class Font(BaseObject):
             value = None
             if "public.glyphOrder" in self.lib:
                 del self.lib["public.glyphOrder"]
+            elif oldValue is None:
+                # there is no glyph order and none is being set: nothing changes
+                return
         else:
             self.lib["public.glyphOrder"] = value
         self.postNotification("Font.GlyphOrderChanged", data=dict(oldValue=oldValue, newValue=value))
